@@ -73,11 +73,13 @@ def actions(weights, fail_heavy=False, bodies=False):
             return (b'\r\n'.join(keep) + b'\r\n').hex() if keep else ''
         blocks = st.one_of(st.just(''), c20.structured_case().map(_block))
         enq = st.fixed_dictionaries({'n': st.integers(1, 8), 'many': st.just(True), 'sender': st.sampled_from([True, True, True, False]),
-                                     'body': body, 'block': blocks, 'dup': st.sampled_from([False, False, False, False, True, 2])}
+                                     'body': body, 'block': blocks, 'dup': st.sampled_from([False, False, False, False, True, 2]),
+                                     'utf8': st.sampled_from([False, False, False, True])}
                                     ).map(lambda d: ['enqueue', d])
     else:
         enq = st.fixed_dictionaries({'n': st.integers(1, 4), 'sender': st.sampled_from([True, True, True, False]),
-                                     'body': st.just(''), 'dup': st.sampled_from([False, False, False, False, True, 2])}
+                                     'body': st.just(''), 'dup': st.sampled_from([False, False, False, False, True, 2]),
+                                     'utf8': st.sampled_from([False, False, False, True])}
                                     ).map(lambda d: ['enqueue', d])
     rel = st.tuples(st.integers(0, 7), _outcomes(fail_heavy)).map(lambda t: ['release', t[0], t[1]])
     choices = {
@@ -101,7 +103,8 @@ def actions(weights, fail_heavy=False, bodies=False):
 
 def history(cfg_strategy, weights, fail_heavy=False, bodies=False):
     first = st.fixed_dictionaries({'n': st.integers(1, 4), 'sender': st.sampled_from([True, True, False]),
-                                   'body': st.just(''), 'dup': st.sampled_from([False, False, False, False, True, 2])}
+                                   'body': st.just(''), 'dup': st.sampled_from([False, False, False, False, True, 2]),
+                                     'utf8': st.sampled_from([False, False, False, True])}
                                   ).map(lambda d: ['enqueue', d])
     return st.tuples(cfg_strategy, first, actions(weights, fail_heavy, bodies)).map(lambda t: (t[0], [t[1]] + t[2]))
 
